@@ -119,3 +119,164 @@ func ruleN4(c *an.Ctx) {
 	c.Floor("N4", "raw string writes in FilterJson implementations (today: the json.Marshal error fallbacks)", nRaw, 1)
 	_ = fmt.Sprint
 }
+
+// N5: a FilterJson that rebuilds its value returns the ORIGINAL bytes (pointer-identical, the
+// caller's signal for "nothing changed") only if no component's filtered bytes differ from that
+// component's input.  If a changed component can leave the "different" flag unset, the rebuilt
+// buffer is thrown away and the unfiltered input is passed on: undeclared struct fields survive,
+// integral floats are not rewritten, and the enclosing value reports "unchanged" as well.
+//
+// The all-elements engine (allchain.go): S = the call that filters one component (a FilterJson
+// call whose first result is compared with sameSlice, or a package helper returning the
+// "changed" signal), conforming = sameSlice(...) returned true (or the signal is false),
+// R = a return whose first result is the data parameter.  After a non-conforming S no path may
+// reach R, whatever the flag's value was before.
+func ruleN5(c *an.Ctx) {
+	impls := typeImpls(c, "FilterJson")
+	nSites := 0
+	for _, fn := range impls {
+		name := an.FnName(fn)
+		if len(fn.Params) < 2 {
+			continue
+		}
+		data := ssa.Value(fn.Params[1])
+		var rets []*ssa.Return
+		rebuilds := false
+		an.Instrs(fn, func(in ssa.Instruction) {
+			if ret, ok := in.(*ssa.Return); ok && len(ret.Results) > 0 {
+				v := an.Strip(an.RetVal(ret, 0))
+				if v == data {
+					rets = append(rets, ret)
+				}
+				if cl, ok := v.(*ssa.Call); ok && cl.Call.StaticCallee() != nil && cl.Call.StaticCallee().Name() == "Bytes" {
+					rebuilds = true
+				}
+			}
+		})
+		if !rebuilds || len(rets) == 0 {
+			continue
+		}
+		// component filter calls whose result is compared with sameSlice
+		an.Instrs(fn, func(in ssa.Instruction) {
+			cl, ok := in.(*ssa.Call)
+			if !ok || cl.Call.Value == nil {
+				return
+			}
+			mname := ""
+			if cl.Call.IsInvoke() {
+				mname = cl.Call.Method.Name()
+			} else if f := cl.Call.StaticCallee(); f != nil {
+				mname = f.Name()
+			}
+			if mname != "FilterJson" {
+				// a package helper that filters one component and reports "changed" (= !sameSlice(...))
+				h := cl.Call.StaticCallee()
+				if h == nil || h.Blocks == nil || h.Pkg != fn.Pkg {
+					return
+				}
+				sigIdx := -1
+				an.Instrs(h, func(hin ssa.Instruction) {
+					ret, ok := hin.(*ssa.Return)
+					if !ok {
+						return
+					}
+					for i := range ret.Results {
+						if u, ok := an.RetVal(ret, i).(*ssa.UnOp); ok && u.Op == token.NOT {
+							if sc, ok := u.X.(*ssa.Call); ok && sc.Call.StaticCallee() != nil && sc.Call.StaticCallee().Name() == "sameSlice" {
+								sigIdx = i
+							}
+						}
+					}
+				})
+				if sigIdx < 0 {
+					return
+				}
+				var sig ssa.Value
+				if h.Signature.Results().Len() == 1 {
+					sig = cl
+				}
+				for _, r := range an.Referrers(cl) {
+					if ex, ok := r.(*ssa.Extract); ok && ex.Index == sigIdx {
+						sig = ex
+					}
+				}
+				if sig == nil {
+					return
+				}
+				nSites++
+				site := allSite{fn: fn, S: cl, desc: "component filter helper", ok: func(r an.Rel) bool {
+					return r.Op == token.ILLEGAL && !r.Truth && r.X == sig
+				}}
+				for _, ret := range rets {
+					ret := ret
+					if (an.Query{Fn: fn, After: cl, Target: func(x ssa.Instruction) bool { return x == ssa.Instruction(ret) }}).Find() == nil {
+						continue
+					}
+					ok, why := allCore(site, ret, 0)
+					c.Check("N5", "original-returned-only-if-no-component-changed("+an.FnName(h)+")@"+name, cl.Pos(), ok,
+						"after a component whose filtered bytes differ from its input, the function must not return the original value: "+why)
+				}
+				return
+			}
+			var fm ssa.Value
+			for _, r := range an.Referrers(cl) {
+				if ex, ok := r.(*ssa.Extract); ok && ex.Index == 0 {
+					fm = ex
+				}
+			}
+			if fm == nil {
+				return
+			}
+			compared := false
+			for _, r := range an.Referrers(fm) {
+				if sc, ok := r.(*ssa.Call); ok && sc.Call.StaticCallee() != nil && sc.Call.StaticCallee().Name() == "sameSlice" {
+					compared = true
+				}
+			}
+			if !compared {
+				// delegation (`return s.Elem.FilterJson(data, lookup)`) or a component the rule does not understand
+				reach := an.Query{Fn: fn, After: cl, Target: func(x ssa.Instruction) bool {
+					for _, r := range rets {
+						if x == ssa.Instruction(r) {
+							return true
+						}
+					}
+					return false
+				}}.Find()
+				if reach != nil {
+					nSites++
+					c.Fail("N5", "component-compared("+an.StablePath(cl.Call.Value)+")@"+name, cl.Pos(),
+						"the filtered bytes of this component are never compared with its input (sameSlice), yet the original value can be returned afterwards as unchanged")
+				}
+				return
+			}
+			nSites++
+			site := allSite{fn: fn, S: cl, desc: "component filter", ok: func(r an.Rel) bool {
+				if r.Op != token.ILLEGAL || !r.Truth {
+					return false
+				}
+				sc, ok := r.X.(*ssa.Call)
+				if !ok || sc.Call.StaticCallee() == nil || sc.Call.StaticCallee().Name() != "sameSlice" {
+					return false
+				}
+				for _, a := range sc.Call.Args {
+					if a == fm {
+						return true
+					}
+				}
+				return false
+			}}
+			for _, ret := range rets {
+				// only returns reachable from the component count
+				ret := ret
+				if (an.Query{Fn: fn, After: cl, Target: func(x ssa.Instruction) bool { return x == ssa.Instruction(ret) }}).Find() == nil {
+					continue
+				}
+				ok, why := allCore(site, ret, 0)
+				c.Check("N5", "original-returned-only-if-no-component-changed("+an.StablePath(cl.Call.Value)+")@"+name, cl.Pos(), ok,
+					"after a component whose filtered bytes differ from its input, the function must not return the original value: "+why)
+			}
+		})
+	}
+	c.Floor("N5", "component filter calls in rebuilding FilterJson implementations", nSites, 1)
+}
